@@ -8,8 +8,8 @@ CENSUS = {
     'C03': ['Storage::filter_block' + S, 'Storage::update_block_number' + S,
             'Storage::update_filter_scripts' + S[:-2] + '|Storage::clear_matched_blocks|Storage::filter_block)$'],
     'C04': ['Storage::rollback_to_block' + S],
-    'C08': ['Storage::add_matched_blocks' + S, 'Storage::remove_matched_blocks' + S, 'Storage::update_min_filtered_block_number' + S],
-    'C09': ['Storage::update_filter_scripts' + S[:-2] + '|Storage::clear_matched_blocks|Storage::filter_block)$', 'Storage::clear_matched_blocks' + S],
+    'C08': ['Storage::init_genesis_block' + S[:-2] + '|Storage::filter_block|Storage::update_last_state)$', 'Storage::update_last_state' + S, 'Storage::add_matched_blocks' + S, 'Storage::remove_matched_blocks' + S, 'Storage::update_min_filtered_block_number' + S],
+    'C09': ['!<BlockFilterRpcImpl as BlockFilterRpc>::set_scripts@^(Storage::update_filter_scripts|HashMap::clear)$', 'Storage::update_filter_scripts' + S[:-2] + '|Storage::clear_matched_blocks|Storage::filter_block)$', 'Storage::clear_matched_blocks' + S],
     'C11': ['~Peers::get_peers_which_have_timeout', '~Peers::get_peers_which_require_new_state', '~Peers::get_peers_which_require_new_proof',
             '~Peers::get_peers_which_require_more_check_points', '~Peers::get_peers_which_require_more_latest_block_filter_hashes',
             '~Peers::get_all_proved_check_points', '~Peers::get_all_prove_states', '~Peers::find_if_a_header_is_proved',
@@ -38,8 +38,8 @@ CENSUS = {
             'CheckPoints::number_of_last_check_point', 'CheckPoints::number_of_next_check_point', 'CheckPoints::if_require_next_check_point',
             'Peers::required_peers_count', 'Storage::update_check_points' + S, 'Storage::update_max_check_point_index' + S],
     'C12': ['LightClientProtocol::check_total_difficulty_for_continuous_headers', 'ProveState::is_parent_of', 'check_last_state', 'ProveState::new_child', 'ProveState::is_same_as',
-            'Storage::update_last_state' + S, 'Storage::update_last_n_headers' + S],
-    'C13': ['~<BlockFilterRpcImpl as BlockFilterRpc>::get_cells', '~<BlockFilterRpcImpl as BlockFilterRpc>::get_cells_capacity',
+            'Storage::update_last_state' + S, 'Storage::last_n_headers_value'],
+    'C13': ['entry_cell_script_starts_with', '~<BlockFilterRpcImpl as BlockFilterRpc>::get_cells', '~<BlockFilterRpcImpl as BlockFilterRpc>::get_cells_capacity',
             '~<BlockFilterRpcImpl as BlockFilterRpc>::get_transactions'],
     'C14': ['verify_tau', 'verify_total_difficulty'],
     'C15': ['+sample_blocks', 'estimate_k', 'estimate_samples_count', 'multiply', 'FlyClientPDF::gen_x', 'FlyClientPDF::random_sample',
@@ -50,7 +50,7 @@ CENSUS = {
 # handlers: only the guards (and argument provenance) of their state-changing calls are held to the reference ('!')
 HANDLERS = {
     'C01': ['!SendLastStateProofProcess::execute@^LightClientProtocol::(commit_prove_state|process_last_state|get_last_state_proof)$'],
-    'C02': ['!SendBlocksProofProcess::execute_internally@^(Storage::add_fetched_header|Peers::(mark_matched_blocks_proved|update_blocks_request|mark_fetching_headers_missing|remove_fetching_header))$',
+    'C02': ['!SendBlocksProofProcess::execute_internally@^(Storage::(add_fetched_header|remove_matched_blocks|update_min_filtered_block_number)|HashMap::clear|Peers::(mark_matched_blocks_proved|update_blocks_request|mark_fetching_headers_missing|remove_fetching_header))$',
             '!SendTransactionsProofProcess::execute_internally@^(Storage::add_fetched_tx|Peers::(mark_fetching_txs_missing|remove_fetching_transaction))$',
             '!<SyncProtocol as CKBProtocolHandler>::received::{closure#0}@^(Peers::(add_block|clear_matched_blocks)|Storage::(filter_block|update_block_number|remove_matched_blocks|update_min_filtered_block_number))$'],
     'C06': ['!BlockFiltersProcess::execute@^(Storage::(add_matched_blocks|update_block_number)|FilterProtocol::update_min_filtered_block_number|Peers::add_matched_blocks)$',
